@@ -9,8 +9,12 @@
 (* singular matrix), solve must satisfy A x = b exactly (cross-multiplied, x = xs / L).  *)
 (* Floats: the harness logs backward-error units; the bound lives here.                  *)
 EXTENDS TraceBase, Banded
-VARIABLES l
-vars == <<l>>
+VARIABLES l, cur, curi, bad
+vars == <<l, cur, curi, bad>>
+\* cur / curi: the MODEL's current value (real / imaginary part) of the object a sequence works on - computed by the
+\* operators of Banded.tla from the operations seen so far; every event of a sequence must start from it.
+\* bad: the case in which an event was not explained (its later exact det / solve events are reported unjudged,
+\* because magnitudes are only guaranteed along the model's own path)
 
 \* a-priori bound for Gaussian elimination with partial pivoting (growth 2^(n-1)), constant factor 8;
 \* complex arithmetic: one more factor 8
@@ -30,6 +34,9 @@ Explained(e) ==
     [] e.op = "new" -> ~e.panic /\ SameBand(e.post, BNew(e.n, e.m1, e.m2, e.x))
     [] e.op = "clone" -> GoodRB(e, e.pre)
     [] e.op = "set" -> IF InBand(e.pre, e.i, e.j) THEN GoodB(e, BSet(e.pre, e.i, e.j, e.x)) ELSE e.panic
+    \* resize re-interprets the storage (the property is silent on what it keeps): only the new geometry is demanded;
+    \* whatever the object then holds is the operand of the following events
+    [] e.op = "resize" -> ~e.panic /\ WellFormedB(e.post) /\ e.post.n = e.n2 /\ e.post.m1 = e.m1 /\ e.post.m2 = e.m2
     [] e.op = "fill" -> GoodB(e, BFill(e.pre, e.x))
     [] e.op = "fill_band" -> IF Acc_FillBand(e.pre, e.kb) THEN GoodB(e, BFillBand(e.pre, e.kb, e.x)) ELSE e.panic
     [] e.op = "neg" -> GoodRB(e, BNeg(e.pre))
@@ -70,9 +77,49 @@ Explained(e) ==
     [] e.op = "solve_units" -> ~e.panic /\ UnitsOK(e)
     [] OTHER -> FALSE
 
-Init == l = 1 /\ TLCSet(1, 0)
+\* ---- model state ----
+IsSeq(e) == Has(e, "seq")
+ImPart(e) == Has(e, "part") /\ e.part = "im"
+TwoParts(e) == Has(e, "prei")
+\* the operand the implementation worked on must be the model's current value (in band)
+PreOK(e) == IF ~IsSeq(e) \/ e.op = "built" THEN TRUE
+            ELSE IF TwoParts(e) THEN SameBand(e.pre, cur) /\ SameBand(e.prei, curi)
+            ELSE IF ImPart(e) THEN SameBand(e.pre, curi) ELSE SameBand(e.pre, cur)
+\* the model's next value after a mutating operation (one part)
+Mutators == {"set", "fill", "fill_band", "add_assign", "sub_assign", "mul_assign", "div_assign", "add_scalar_assign", "sub_scalar_assign"}
+After(e) == CASE e.op = "set" -> BSet(e.pre, e.i, e.j, e.x)
+              [] e.op = "fill" -> BFill(e.pre, e.x)
+              [] e.op = "fill_band" -> BFillBand(e.pre, e.kb, e.x)
+              [] e.op = "add_assign" -> BAdd(e.pre, e.b)
+              [] e.op = "sub_assign" -> BSub(e.pre, e.b)
+              [] e.op = "mul_assign" -> BScale(e.pre, e.s)
+              [] e.op = "div_assign" -> BDivS(e.pre, e.s)
+              [] e.op = "add_scalar_assign" -> BShift(e.pre, e.s)
+              [] e.op = "sub_scalar_assign" -> BShift(e.pre, -e.s)
+\* value of one part after event e, given the previous model value v of that part
+NextPart(e, v, ok) ==
+    IF e.op = "built" THEN (IF e.panic THEN v ELSE e.want)
+    ELSE IF ~ok THEN (IF Has(e, "post") THEN e.post ELSE v)                 \* re-synchronise on the logged state
+    ELSE IF e.op \in Mutators THEN After(e)
+    ELSE IF e.op \in {"resize", "new"} THEN e.post
+    ELSE v
+Unjudged(e) == IsSeq(e) /\ e.cid = bad /\ e.op \in {"det", "solve"}
+
+Init == l = 1 /\ cur = Empty /\ curi = Empty /\ bad = -1 /\ TLCSet(1, 0)
 Step == /\ l <= NRec
-        /\ LET e == Rec[l] IN IF Explained(e) THEN TRUE ELSE Mismatch(l, e, e.op)
+        /\ LET e == Rec[l]
+               ok == IF Unjudged(e) THEN FALSE ELSE IF PreOK(e) THEN Explained(e) ELSE FALSE
+           IN /\ IF ok THEN TRUE
+                 ELSE Mismatch(l, e, IF Unjudged(e) THEN "unjudged-after-mismatch" ELSE IF PreOK(e) THEN e.op ELSE "operand-is-not-the-model-state")
+              /\ bad' = IF ok THEN bad ELSE e.cid
+              /\ IF e.op = "scale_cx"
+                   THEN IF e.src = "mul_assign"
+                          THEN /\ cur' = (IF ok THEN BLin(e.pre, e.s, e.prei, -e.si) ELSE e.rb)
+                               /\ curi' = (IF ok THEN BLin(e.pre, e.si, e.prei, e.s) ELSE e.rbi)
+                          ELSE UNCHANGED <<cur, curi>>
+                   ELSE IF TwoParts(e) THEN UNCHANGED <<cur, curi>>
+                   ELSE IF ImPart(e) THEN cur' = cur /\ curi' = NextPart(e, curi, ok)
+                   ELSE cur' = NextPart(e, cur, ok) /\ curi' = curi
         /\ l' = l + 1
 Spec == Init /\ [][Step]_vars
 =============================================================================
